@@ -564,7 +564,50 @@ fn dispatch(sub: &str, bytes: &[u8], col: &mut Collector) -> Result<(), Failure>
     with_curve!(curve, G => case::<G>(bytes, col))
 }
 
+/// Many contexts × one changed constant on the smallest statement (one commitment, V₀ = 7 against
+/// V₀ = 8): a verifier that folds its checks with too short a weight accepts a fraction of them.
+/// `chunk` selects a block of `per` context strings.
+fn weight_probe<G: CurveTag>(chunk: usize, per: usize, col: &mut Collector) -> Result<(), Failure> {
+    let mk = |ctx: u64, err: Option<ScalarSpec>| Program {
+        curve: G::CURVE,
+        tlabel: 0,
+        pre: vec![(0, ctx.to_le_bytes().to_vec())],
+        ops: vec![Op::Commit { v: ScalarSpec::Small(7), blind: ScalarSpec::Rand(1) }, Op::Constrain { lc: vec![(Var::Com(0), Sc::C(ScalarSpec::One))], err, base: None }],
+        owned: false,
+        cap_p: Cap::Exact,
+        cap_v: Cap::Exact,
+        party_cap: 1,
+        seed: 5,
+        pc: 0,
+        gens: 0,
+    };
+    for i in 0..per {
+        let ctx = (chunk * per + i) as u64;
+        let honest = mk(ctx, None);
+        let p = run_prover::<G>(&honest, &ProveOpts::default());
+        let Some(proof) = p.proof.as_ref() else { continue };
+        let other = mk(ctx, Some(ScalarSpec::One));
+        let v = run_verifier::<G>(&other, &p.commitments, proof, &VerifyOpts::default());
+        col.evals_add(1);
+        if v.accepted() {
+            return Err(Failure::new(
+                "C05:accepted:constant-changed-in-some-context",
+                format!("a proof for V0 = 7 is accepted for V0 = 8 under context #{}: the changed constant is caught only with a probability noticeably below one", ctx),
+                json!({"proved_statement": honest.to_json(), "verifier_statement": other.to_json(), "context": ctx}),
+            ));
+        }
+    }
+    col.class("weight-probe");
+    col.nontrivial(fp_of(&(G::CURVE, chunk, per, "probe")));
+    Ok(())
+}
+
 pub fn replay(sub: &str, bytes: &[u8], col: &mut Collector) -> Result<(), Failure> {
+    if sub == "c05/weight-probe" && bytes.len() == 5 {
+        let chunk = (bytes[1] as usize) << 8 | bytes[2] as usize;
+        let per = (bytes[3] as usize) << 8 | bytes[4] as usize;
+        return with_curve!(Curve::ALL[bytes[0] as usize % 3], G => weight_probe::<G>(chunk, per, col));
+    }
     dispatch(sub, bytes, col)
 }
 
@@ -583,6 +626,15 @@ pub fn run(tier: &str, seed: u64) -> i32 {
         let sub = format!("c05/{}", c.name());
         rep.outcome.merge(replay_corpus("C05", &sub, &|b, col| dispatch(&sub, b, col)));
         rep.outcome.merge(search(&sub, seed, n, 700, &|b, col| dispatch(&sub, b, col)));
+    }
+    // the smallest changed-constant deviation under many contexts (2^14.6 quick, 2^18.2 thorough)
+    if rep.outcome.found.is_empty() {
+        let (chunks, per) = if tier == "thorough" { (600usize, 500usize) } else { (100, 250) };
+        let c = Curve::ALL[(seed % 3) as usize];
+        let items: Vec<(Curve, usize, usize)> = (0..chunks).map(|k| (c, k, per)).collect();
+        let mut o = crate::runner::enumerate("c05/weight-probe", &items, &|(c, k, p)| vec![c.index() as u8, (*k >> 8) as u8, *k as u8, (*p >> 8) as u8, *p as u8], &|(c, k, p), col| with_curve!(*c, G => weight_probe::<G>(*k, *p, col)));
+        o.exhaustive = false;
+        rep.outcome.merge(o);
     }
     for (c, f) in [
         ("dev:different-commitment:V+B", 0.003), ("dev:extra-commitment:fresh:appended", 0.005), ("dev:extra-commitment:duplicate:appended", 0.003), ("dev:missing-commitment", 0.01),
